@@ -45,6 +45,9 @@ struct ReplaySpec {
     /// the queried handle comes from `clone_for_thread()` of an opened handle
     #[serde(default)]
     via_clone: bool,
+    /// shared-handle pass: (contig number in archive order, start, end) queries in sequence
+    #[serde(default)]
+    cross: Option<Vec<(u64, u64, u64)>>,
 }
 
 /// The handle that is asked: a freshly opened one, or (every other contig) a handle obtained from
@@ -88,13 +91,15 @@ fn explore(source: PipeSpec, only: Option<ReplaySpec>, index: u64, want_sample: 
     let mut rr = Rng::new(arch_id ^ 0x7);
     r.count("archives", 1);
     let mut contig_no = 0u64;
+    // (sample, contig, full sequence) of every contig judged above, for the shared-handle pass
+    let mut fulls: Vec<(String, String, Vec<u8>)> = Vec::new();
     for s in &wl.samples {
         for (cname, _) in &s.contigs {
             let cname = cname.trim().to_string();
             contig_no += 1;
             let via_clone = only.as_ref().map(|o| o.via_clone).unwrap_or((contig_no + index) % 2 == 0);
             if let Some(o) = &only {
-                if o.sample != s.name || o.contig != cname {
+                if o.cross.is_none() && (o.sample != s.name || o.contig != cname) {
                     continue;
                 }
             }
@@ -213,6 +218,64 @@ fn explore(source: PipeSpec, only: Option<ReplaySpec>, index: u64, want_sample: 
                 }
             }
             r.extra_digests.push(seed::fnv_mix(arch_id, seed::fnv64(cname.as_bytes()) ^ pairs.len() as u64));
+            fulls.push((s.name.clone(), cname.clone(), full));
+        }
+    }
+    // ONE handle for the whole archive: ranges of different contigs alternate on it. Contigs of
+    // different samples share stored segments, often in opposite orientation (reverse-complemented
+    // contigs), so whatever a handle remembers about "the segment decoded last" is put to the test.
+    if only.as_ref().map(|o| o.cross.is_some()).unwrap_or(fulls.len() >= 2) {
+        let queries: Vec<(usize, usize, usize)> = match &only {
+            Some(o) => o.cross.clone().unwrap_or_default().into_iter().map(|(c, a, b)| (c as usize, a as usize, b as usize)).collect(),
+            None => {
+                let mut q = Vec::new();
+                let mut rc = Rng::new(arch_id ^ 0xC705);
+                for _ in 0..120 {
+                    // the same relative window in two contigs, from both ends
+                    let i = rc.below(fulls.len() as u64) as usize;
+                    let j = rc.below(fulls.len() as u64) as usize;
+                    let (ni, nj) = (fulls[i].2.len(), fulls[j].2.len());
+                    let p = rc.below(ni.max(1) as u64) as usize;
+                    let w = 1 + rc.below(12) as usize;
+                    q.push((i, p, (p + w).min(ni + 1)));
+                    q.push((j, p.min(nj), (p + w).min(nj + 1)));
+                    q.push((j, nj.saturating_sub(p + w), nj.saturating_sub(p)));
+                }
+                q
+            }
+        };
+        let fl: Vec<(String, String)> = fulls.iter().map(|f| (f.0.clone(), f.1.clone())).collect();
+        let q2 = queries.clone();
+        let (got, _) = run_plain(world_with(&bytes, faults), move || -> Vec<Result<Vec<u8>, String>> {
+            let mut d = match handle(false) {
+                Ok(d) => d,
+                Err(e) => return vec![Err(e)],
+            };
+            q2.iter().map(|&(c, a, b)| d.get_contig_range(&fl[c].0, &fl[c].1, a, b).map_err(|e| format!("{e:#}"))).collect()
+        });
+        match got {
+            Err(p) => {
+                if first.is_none() {
+                    first = Some(viol(&source, "", "", 0, 0, faults, index, arch_id, "panic", format!("range queries alternating between contigs on one handle panicked: {p}"), false));
+                }
+            }
+            Ok(got) => {
+                for (qi, (&(c, a, b), g)) in queries.iter().zip(got.iter()).enumerate() {
+                    r.evaluations += 1;
+                    r.count("cross_contig_queries_on_one_handle", 1);
+                    let full = &fulls[c].2;
+                    let n = full.len();
+                    let exp: &[u8] = if a >= b || a >= n { &[] } else { &full[a..b.min(n)] };
+                    let okk = matches!(g, Ok(v) if v.as_slice() == exp);
+                    if !okk && first.is_none() {
+                        let mut v = viol(&source, &fulls[c].0, &fulls[c].1, a as u64, b as u64, faults, index, arch_id, "range-differs",
+                            format!("query #{qi} of a sequence of range queries that alternates between contigs on ONE handle: {}/{:?} [{a},{b}) of {n} differs from the full extraction (the same query on a fresh handle is judged separately)", fulls[c].0, fulls[c].1), false);
+                        // replay needs the whole prefix of the query sequence
+                        v.spec["cross"] = json!(queries[..=qi].iter().map(|&(c, a, b)| (c as u64, a as u64, b as u64)).collect::<Vec<_>>());
+                        first = Some(v);
+                    }
+                }
+            }
         }
     }
     if r.evaluations == 0 {
@@ -238,7 +301,7 @@ fn viol(source: &PipeSpec, sample: &str, contig: &str, a: u64, b: u64, faults: O
         property: "C07".into(),
         class: class.into(),
         detail,
-        spec: serde_json::to_value(&ReplaySpec { source: source.clone(), sample: sample.into(), contig: contig.into(), start: a, end: b, read_faults: faults, via_clone }).unwrap(),
+        spec: serde_json::to_value(&ReplaySpec { source: source.clone(), sample: sample.into(), contig: contig.into(), start: a, end: b, read_faults: faults, via_clone, cross: None }).unwrap(),
         engine: "reader-sim".into(),
         index,
         event_log_digest: seed::fnv_mix(arch, a ^ (b << 32)),
